@@ -32,7 +32,7 @@ HEADER = "MediumKeyboard"
 TEMPO = [[0, 120000]]
 
 
-def _items(phrases, note_ticks):
+def _items(phrases, note_ticks, sp_first=False):
     # notes vary in shape (single, chord, open, tap-flagged) and carry sustains that may reach into or
     # across phrases: membership is decided by the note's own tick only
     keyed = []
@@ -46,7 +46,8 @@ def _items(phrases, note_ticks):
                 keyed.append((t, 0, 2 * i + 1, [t, "N", (i + 2) % 5, (i % 2) * 3]))
         if i % 5 == 4:
             keyed.append((t, 0, 2 * i + 1, [t, "N", 6, 0]))
-    keyed += [(p[0], 1, k, [p[0], "S", 2, p[1]]) for k, p in enumerate(phrases)]
+    # phrase lines behind the note lines of their tick (Moonscraper) or, with sp_first, in front of them
+    keyed += [(p[0], -1 if sp_first else 1, k, [p[0], "S", 2, p[1]]) for k, p in enumerate(phrases)]
     keyed.sort(key=lambda x: (x[0], x[1], x[2]))
     return [x[3] for x in keyed]
 
@@ -64,7 +65,7 @@ def check_case(ctx: Ctx, case) -> None:
     """case: {"phrases": [[start, len], ...] in file order, "notes": [ticks], "res"?}"""
     phrases, note_ticks = case["phrases"], case["notes"]
     res = case.get("res", 192)
-    items = _items(phrases, note_ticks)
+    items = _items(phrases, note_ticks, sp_first=bool(case.get("sp_first")))
     exp = expected_notes(res, items)
     lines = [S.track_line(it) for it in items]
     rc = {"phrases": phrases, "notes": note_ticks, "lines": lines}
@@ -112,7 +113,8 @@ def drive_small(ctx: Ctx) -> None:
             i += 1
             if i % ctx.nshards != ctx.shard:
                 continue
-            case = {"phrases": pl, "notes": [t for t in range(8) if m >> t & 1], "fmt": i if i % 5 == 0 else 0}
+            case = {"phrases": pl, "notes": [t for t in range(8) if m >> t & 1], "fmt": i if i % 5 == 0 else 0,
+                    "sp_first": i % 7 == 3}
             ctx.current = case
             check_case(ctx, case)
     # 3-phrase lists, sampled
@@ -203,7 +205,8 @@ def _relations(draw, ctx):
         return {"phrases": phrases, "notes": notes, "res": draw(st.sampled_from([960, 10 ** 6])), "tempo": [[0, 10 ** 9]],
                 "fmt": 0}
     return {"phrases": phrases, "notes": notes, "res": draw(st.sampled_from([192, 480, 3, 10 ** 6])), "tempo": tempo,
-            "fmt": draw(st.one_of(st.just(0), st.just(0), st.integers(1, 10 ** 6)))}
+            "fmt": draw(st.one_of(st.just(0), st.just(0), st.integers(1, 10 ** 6))),
+            "sp_first": draw(st.integers(0, 4)) == 0}
 
 
 def strat_relations(ctx: Ctx):
